@@ -77,13 +77,21 @@ def impl(d):
         return s.encode().hex() + "|" + back
     if k == "dec":
         cls = P2pkhAddress if d["ty"] == "p2pkh" else P2shAddress
-        a = cls(address=d["s"])
-        return "1|" + a.to_hash160()
+        a = cls(address=d["s"])          # acceptance is the constructor returning; what it then holds is observed apart
+        try:
+            h = a.to_hash160()
+        except Exception as e:
+            h = "ACCEPTED_BUT_NO_HASH:" + type(e).__name__
+        return "1|" + h
     if k == "pk":
         pk = PrivateKey(secret_exponent=d["d"]).get_public_key()
         out = []
-        for c in d["order"]:
-            out.append(pk.get_address(compressed=c).to_string().encode().hex() + "," + pk.to_hash160(c))
+        for j, c in enumerate(d["order"]):
+            # compressed is the documented default of both helpers: rely on it where the case asks for compressed
+            if c and (d["d"] + j) % 2 == 0:
+                out.append(pk.get_address().to_string().encode().hex() + "," + pk.to_hash160())
+            else:
+                out.append(pk.get_address(compressed=c).to_string().encode().hex() + "," + pk.to_hash160(c))
         return "|".join(out)
 
 
